@@ -10,14 +10,16 @@
    it with compare-and-swap(-1 -> candidate) (or, switch "plain_store", a plain store); every hash
    evaluation RE-READS the published seed. *)
 EXTENDS Naturals, Integers, Sequences, FiniteSets, TLC
-CONSTANTS NThreads, Nodes, Prog, AtomicRMW, MUTT
+CONSTANTS NThreads, Nodes, Prog, AtomicRMW, MUTT,
+          InitRc,        \* references on every node at the start
+          MainHolds      \* one of them is the main thread's, released after all threads are done (else: the threads hold them all)
 VARIABLES rc, dead, ndestroy, pc, tmp, bad, seed, phase, cand, used, mainput
 vars == <<rc, dead, ndestroy, pc, tmp, bad, seed, phase, cand, used, mainput>>
 Thr == 1..NThreads
-Init == /\ rc = [n \in Nodes |-> 1] /\ dead = {} /\ ndestroy = [n \in Nodes |-> 0]
+Init == /\ rc = [n \in Nodes |-> InitRc] /\ dead = {} /\ ndestroy = [n \in Nodes |-> 0]
         /\ pc = [t \in Thr |-> 1] /\ tmp = [t \in Thr |-> -1] /\ bad = FALSE
         /\ seed = -1 /\ phase = [t \in Thr |-> "prog"] /\ cand = [t \in Thr |-> -1] /\ used = [t \in Thr |-> <<>>]
-        /\ mainput = FALSE
+        /\ mainput = ~MainHolds
 Touch(n) == n \in dead
 Apply(n, delta) == /\ rc' = [rc EXCEPT ![n] = @ + delta]
                    /\ IF rc[n] + delta = 0 THEN dead' = dead \cup {n} /\ ndestroy' = [ndestroy EXCEPT ![n] = @ + 1]
@@ -27,7 +29,14 @@ Step(t) ==
     /\ phase[t] = "prog" /\ pc[t] <= Len(Prog[t])
     /\ LET op == Prog[t][pc[t]]
            delta == IF op.op = "get" THEN 1 ELSE -1
-       IN IF AtomicRMW
+       IN IF AtomicRMW /\ op.op = "put" /\ "put_check_then_act" \in MUTT
+          \* mutant: json_object_put decides with a plain read ("more than one owner left?") and only then decrements
+          THEN IF tmp[t] = -1
+               THEN /\ tmp' = [tmp EXCEPT ![t] = rc[op.n]] /\ bad' = (bad \/ Touch(op.n)) /\ UNCHANGED <<rc, dead, ndestroy, pc>>
+               ELSE /\ (IF tmp[t] > 1 THEN rc' = [rc EXCEPT ![op.n] = @ - 1] /\ UNCHANGED <<dead, ndestroy>>
+                        ELSE rc' = [rc EXCEPT ![op.n] = 0] /\ dead' = dead \cup {op.n} /\ ndestroy' = [ndestroy EXCEPT ![op.n] = @ + 1])
+                    /\ tmp' = [tmp EXCEPT ![t] = -1] /\ pc' = [pc EXCEPT ![t] = @ + 1] /\ UNCHANGED bad
+          ELSE IF AtomicRMW
           THEN /\ Apply(op.n, delta) /\ bad' = (bad \/ Touch(op.n)) /\ pc' = [pc EXCEPT ![t] = @ + 1] /\ UNCHANGED tmp
           ELSE IF tmp[t] = -1
                THEN /\ tmp' = [tmp EXCEPT ![t] = rc[op.n]] /\ bad' = (bad \/ Touch(op.n)) /\ UNCHANGED <<rc, dead, ndestroy, pc>>   \* load
@@ -60,10 +69,16 @@ MainPut == /\ AllDone /\ ~mainput /\ mainput' = TRUE
            /\ UNCHANGED <<pc, tmp, seed, phase, cand, used>>
 Next == (\E t \in Thr : Step(t) \/ ProgDone(t) \/ ReadSeed(t) \/ Publish(t) \/ Hash(t)) \/ MainPut
 Spec == Init /\ [][Next]_vars
-NoLostUpdate == AllDone => \A n \in Nodes : rc[n] = IF mainput THEN 0 ELSE 1
+\* net effect of the threads' programs on node n, and the count every node must end with
+RECURSIVE NetOf(_, _, _)
+NetOf(p, i, n) == IF i > Len(p) THEN 0 ELSE (IF p[i].n = n THEN (IF p[i].op = "get" THEN 1 ELSE -1) ELSE 0) + NetOf(p, i + 1, n)
+RECURSIVE SumThreads(_, _)
+SumThreads(t, n) == IF t = 0 THEN 0 ELSE NetOf(Prog[t], 1, n) + SumThreads(t - 1, n)
+Final(n) == InitRc + SumThreads(NThreads, n) - (IF MainHolds /\ mainput THEN 1 ELSE 0)
+NoLostUpdate == AllDone => \A n \in Nodes : rc[n] = Final(n)
 DestroyedExactlyOnce == /\ \A n \in Nodes : ndestroy[n] <= 1
-                        /\ mainput => \A n \in Nodes : ndestroy[n] = 1
-                        /\ ~mainput => \A n \in Nodes : ndestroy[n] = 0
+                        /\ (AllDone /\ mainput) => \A n \in Nodes : ndestroy[n] = IF Final(n) = 0 THEN 1 ELSE 0
+                        /\ (MainHolds /\ ~mainput) => \A n \in Nodes : ndestroy[n] = 0
 NoUseAfterDestroy == ~bad
 OneSeed == \A t, u \in Thr : \A i \in 1..Len(used[t]), j \in 1..Len(used[u]) : used[t][i] = used[u][j] /\ used[t][i] # -1
 ====
